@@ -154,6 +154,15 @@ _MISSING = object()
 RE_UNDEF_REPR = re.compile(r"(?:Falsy)?StrictUndefined\(")
 
 
+def _root_of(path: list[Any]) -> str:
+    head = path[0] if path else ""
+    return re.split(r"[.\[]", str(head), maxsplit=1)[0]
+
+
+def _mentions(text: str, name: str) -> bool:
+    return bool(name) and re.search(r"(?<![\w-])" + re.escape(name) + r"(?![\w-])", text) is not None
+
+
 def _scope_get(scope: Any, key: Any) -> Any:
     """The innermost layer that has `key` decides - a nil binding is a binding.  Walks the layers of the
     engine's chain maps itself instead of trusting their `__getitem__`."""
@@ -262,6 +271,12 @@ def probe_templates(filters: list[str]) -> list[str]:
             else:
                 for left in ("s", "a", "n", "items"):
                     t.append("{{ " + left + " | " + f + args + " }}")
+    # nothing is missing at all: a strict render may not raise UndefinedError, whatever optional settings the
+    # filter looks up on its own
+    for f in filters:
+        for args in ("", ": 1", ": 'a'", ": 'k'", ": 'k', 1", ": 'length-meter'", ": 'USD'", ": s, n"):
+            for left in ("s", "a", "n", "items", "'2001-02-03'"):
+                t.append("{{ " + left + " | " + f + args + " }}")
     return t
 
 
@@ -296,7 +311,7 @@ class C16(Prop):
         filters = sorted(f for f in env.filters if f not in ("date", "datetime", "safe"))
         xs = PROBE_X if tier == "thorough" else PROBE_X[:3]
         for tmpl in probe_templates(filters):
-            for x in xs:
+            for x in (xs if "X" in tmpl else xs[:1]):
                 if "falsy-contains" in disabled and (" contains X" in tmpl or "X in " in tmpl):
                     continue
                 yield {"kind": "probe", "src": tmpl.replace("X", x), "mode": "sync"}
@@ -409,6 +424,14 @@ class C16(Prop):
                         if not created_s:
                             res.fail("raises-without-undefined", f"UndefinedError-without-missing-data:{pol}",
                                      f"{label}: {out!r} but no undefined value was created; src={src!r}")
+                            return res
+                        roots = {_root_of(path) for path, _e in created_s}
+                        if not any(_mentions(text, r) for r in roots for text in (src, *templates.values())):
+                            # every undefined value belongs to a name that no template mentions: an optional
+                            # setting the engine looks up on its own account is not data the render "uses"
+                            res.fail("raises-without-undefined", f"UndefinedError-for-implicit-variable:{pol}",
+                                     f"{label}: {out!r}; undefined values were only created for {sorted(roots)!r}, "
+                                     f"which the template never mentions; src={src!r}")
                             return res
                         continue
                     if reached:
